@@ -246,6 +246,41 @@ def rule_prim(ctx, rule, which=("prop", "detached")):
                       "queued for loop(), never run by the caller (%d cell(s))" % len(cells))
 
 
+# event callbacks that consume their event by design (reviewed, one line each)
+CONSUMING_CALLBACKS = {
+    ("YowNetworkLayer", "onConnectLayerEvent"): "the network layer is the bottom of the stack: the broadcast connect request ends there",
+    ("YowNetworkLayer", "onDisconnectLayerEvent"): "the broadcast disconnect request ends at the network layer",
+}
+
+
+def rule_callbacks(ctx, rule):
+    """an @EventCallback that returns a truthy value stops the event for every layer beyond it (emitEvent /
+    broadcastEvent / the group's onEvent continue only on a false answer): state events (connected, disconnected,
+    authed, ...) must reach all layers, so no callback outside the reviewed table returns a value"""
+    repo = ctx.repo
+    n = 0
+    for m in sorted(repo.modules.values(), key=lambda m: m.relpath):
+        if "/demos/" in m.relpath or not m.relpath.startswith("yowsup/layers/"):
+            continue
+        for c in m.classes.values():
+            for name, f in sorted(c.methods.items()):
+                if not any(isinstance(d, ast.Call) and unparse(d.func).split(".")[-1] == "EventCallback" for d in f.decorator_list):
+                    continue
+                n += 1
+                w = where(m.relpath, "%s.%s" % (c.name, name), f.lineno)
+                rets = [r for r in ast.walk(f) if isinstance(r, ast.Return) and r.value is not None and not (isinstance(r.value, ast.Constant) and r.value.value in (None, False))]
+                # returns inside nested functions do not count
+                nested = {id(r) for g in ast.walk(f) if isinstance(g, (ast.FunctionDef, ast.Lambda)) and g is not f for r in ast.walk(g)}
+                rets = [r for r in rets if id(r) not in nested]
+                if (c.name, name) in CONSUMING_CALLBACKS:
+                    ctx.hold(rule, w, "event callback %s.%s" % (c.name, name), "consumes its event by design: " + CONSUMING_CALLBACKS[(c.name, name)])
+                    continue
+                ctx.check(rule, not rets, w, "event callback %s.%s" % (c.name, name),
+                          "returns %s: the event stops here - the layers beyond (the interface layer and the application above it, the keep-alive, the encryption layers) never learn of it" % (unparse(rets[0].value) if rets else ""),
+                          "returns nothing: the event travels on")
+    ctx.units[rule + "_callbacks"] = n
+
+
 def rule_state(ctx):
     """event callback tables, locks and neighbour links are per layer instance"""
     from ..state import per_instance_state
@@ -587,3 +622,7 @@ def run(ctx):
     ctx.guarded("C18.par", rule_par, ctx)
     ctx.guarded("C18.state", rule_state, ctx)
     ctx.guarded("C18.prim", rule_prim, ctx, "C18.prim")
+    ctx.guarded("C18.stop", rule_callbacks, ctx, "C18.stop")
+    # data handed to toLower reaches the layer below: nothing else may hold the (non re-entrant) layer lock (C12.order), adopted
+    from .c12_order import rule_layer_lock
+    ctx.guarded("C18.wire", rule_layer_lock, ctx, "C18.wire")
